@@ -56,8 +56,8 @@ def Restart(workingDirectory, restarts, componentName, log, exitReason, exitCode
 def configs(thorough):
     ms = [None, -1, 0, 1, 2, 3] if thorough else [None, -1, 0, 1, 3]
     files = ['unset', '', 'restart.py', 'custom.py', 'missing.py'] if thorough else ['unset', '', 'custom.py']
-    ons = [None, ['KnownIssue', 'ResourceExhausted'], ['SystemIssue'], ['Success']] if thorough else \
-        [None, ['KnownIssue', 'ResourceExhausted']]
+    ons = [None, ['KnownIssue', 'ResourceExhausted'], ['SystemIssue'], ['Success'], []] if thorough else \
+        [None, ['KnownIssue', 'ResourceExhausted'], []]
     for m in ms:
         for f in files:
             for on in ons:
